@@ -144,6 +144,7 @@ func checkCmd(args []string) int {
 	var knownHit []string
 	nReplay := 0
 	nativeRuns := 0
+	nValidate, nDisagree := 0, 0
 	var otherProps []string
 	for _, rs := range runs {
 		cfg := &engine.Config{Harness: rs.Harness, MaxPreempt: rs.P, Gran: rs.Gran, PoolReuse: true, MapOrder: rs.MapOrder, TimerBudget: rs.Timers, Params: rs.Params}
@@ -179,6 +180,31 @@ func checkCmd(args []string) int {
 		for _, l := range reach {
 			if res.Reached[l] == 0 {
 				problems = append(problems, fmt.Sprintf("%s: VACUOUS: reachability witness %q not reached on any path", rs.Harness, l))
+			}
+		}
+		// translator validation: completed (non-violating) sample paths of data-only harnesses are
+		// re-run natively with the solver's model for their inputs; the native run must agree (no
+		// assertion fails, the harness runs to the end)
+		if rs.Native == "data" && os.Getenv("SSASYM_NONATIVE") == "" {
+			k := 0
+			for _, sm := range res.Samples {
+				if !sm.Modelled || k >= 2 {
+					continue
+				}
+				k++
+				nValidate++
+				path := filepath.Join(outDir(), "replay", fmt.Sprintf("%s-%s-sample%d.json", prop, rs.Harness, k))
+				os.MkdirAll(filepath.Dir(path), 0o755)
+				b, _ := json.MarshalIndent(replayFile{Property: prop, Harness: rs.Harness, Kind: "sample", Inputs: sm.Inputs, Kinds: sm.Kinds, Decisions: sm.Decisions, Repo: gitRev(repoDir)}, "", " ")
+				os.WriteFile(path, b, 0o644)
+				ok, out, _ := nativeReplay(path, rs.Harness, &engine.Violation{Kind: "assert", Label: ""}, "data")
+				// nativeReplay reports "reproduced" when any assertion failed natively
+				if ok || !strings.Contains(out, "ZZ-DONE") {
+					nDisagree++
+					problems = append(problems, fmt.Sprintf("%s: ENGINE-DISAGREEMENT: native run of a passing sample path failed (%s): %s", rs.Harness, path, firstLine(out)))
+				} else {
+					os.Remove(path)
+				}
 			}
 		}
 		// classify violations by signature
@@ -247,7 +273,8 @@ func checkCmd(args []string) int {
 			exit = 2
 		}
 	}
-	evidenceExtra = map[string]interface{}{"violations_belonging_to_other_properties_seen": otherProps, "native_replay_runs": nativeRuns}
+	evidenceExtra = map[string]interface{}{"violations_belonging_to_other_properties_seen": otherProps, "native_replay_runs": nativeRuns,
+		"traces_validated_against_impl": nValidate, "engine_native_disagreements": nDisagree}
 	writeEvidence(prop, tier, seed, spec, runs, results, wall, nViol, problems, knownHit)
 	if exit == 0 {
 		fmt.Printf("OK property=%s tier=%s wall=%.1fs\n", prop, tier, wall.Seconds())
@@ -375,7 +402,7 @@ func nativeReplay(replayPath, harness string, v *engine.Violation, mode string) 
 		last = string(out)
 		switch v.Kind {
 		case "assert":
-			if strings.Contains(last, "ZZ-ASSERT-FAILED "+v.Label) {
+			if strings.Contains(last, "ZZ-ASSERT-FAILED "+v.Label) || strings.Contains(last, "panic:") && v.Label == "" {
 				return true, last, i + 1
 			}
 		case "panic":
